@@ -1,5 +1,6 @@
 import Firefly.Proof.AmlLex
 import Firefly.Model.AmlProg
+import Firefly.Model.AmlNs
 import Firefly.Gen.C11
 /-!
 # C11 — Well-formed AML is parsed into a namespace that matches the program
@@ -18,7 +19,7 @@ the whole object pool).  What is proved here, for all inputs: the lexical round 
 constants, and the agreement of the facts this check was built against.
 -/
 namespace Firefly.C11
-open Firefly.AmlLex Firefly.AmlProg
+open Firefly.AmlLex Firefly.AmlProg Firefly.AmlNs
 
 /-- **Integer constants round-trip** (`Lex.const_roundtrip`): for every table `d`, position `base`,
 width `n` and value `v`: if the `n` bytes at `base` are the little-endian encoding `encConst v n` and
